@@ -309,6 +309,13 @@ class Ctx:
     def fresh_bool(self, name):
         return SymBool(core.z3.Bool(self.E.fresh_name(name)))
 
+    def ite_(self, cond, a, b):
+        return ite(cond, a, b)
+
+    def counted_list(self, name, length, last):
+        """a list of symbolic length of which only len(), [-1] and append() are used"""
+        return _CountedList(name, length, last)
+
     def bytearray_of(self, b):
         return ByteArr(to_bytes_val(b))
 
@@ -444,3 +451,25 @@ def _open_findings():
         except Exception:
             _KF = set()
     return _KF
+
+
+class _CountedList:
+    def __init__(self, name, length, last):
+        self.name, self.length, self.last, self.appended = name, length, last, 0
+
+    def pyvc_len(self, I):
+        return self.length + self.appended
+
+    def pyvc_getitem(self, I, k):
+        if isinstance(k, int) and k == -1:
+            return self.last
+        raise Unsupported("index %r into a counted list" % (k,))
+
+    def pyvc_getattr(self, I, name):
+        from .interp import Builtin
+        if name == "append":
+            def app(I, x):
+                self.appended += 1
+                self.last = x
+            return Builtin("list.append", app)
+        raise Unsupported("method %s on a counted list" % name)
